@@ -1,5 +1,6 @@
 import ButlerModel.Model.RegCache
 import ButlerModel.Model.Cache
+import ButlerModel.Gen.CachePy
 /-! # C17 — the file cache stays within its configured bounds, and its bookkeeping is exact
 
 Theorems about `_expire_cache` (all four modes) and `CacheRegistry` for every registry content,
@@ -437,3 +438,128 @@ theorem old_code_keeps_rolled_back_value :
     (step true false (run true false {} [.enter, .write 1 7, .read 1, .rollback (fun _ => 0)]) (.read 1)).2 = 7 := by decide
 
 end C17.Reg
+
+/-! ## T-tie: `_expire_cache` **as translated from `datastore/cache_manager.py` on every run**
+(`translate/gen_cache.py`, one definition per mode; `scan_cache`, `_remove_from_cache` and `_sort_cache` are the
+hand-modelled effects of `Model/Cache.lean`).  The bound and bookkeeping theorems above are about `Cache.expire`; the
+theorems below identify the source's `files`, `size` and `age` branches with it. -/
+namespace C17.Translated
+open Cache
+
+/-- `files` mode as written in the source is the model's. -/
+theorem expire_files_eq (thr now : Int) (disk : List Entry) (r : Reg) :
+    Gen.CachePy.expire_files thr now disk r = expire .files thr now disk r := by
+  simp only [Gen.CachePy.expire_files, expire]
+  by_cases h : ((scan disk r).entries.length : Int) - thr > 0 <;> simp [h]
+
+theorem removeKeys_nil (disk : List Entry) (r : Reg) : removeKeys disk r [] = (disk, r) := by
+  simp only [removeKeys, List.foldl_nil, List.contains_nil, Bool.not_false]
+  congr 1
+  induction disk with
+  | nil => rfl
+  | cons a as ih => simp [List.filter_cons, ih]
+
+theorem removeKeys_cons (disk : List Entry) (r : Reg) (k : Nat) (ks : List Nat) :
+    removeKeys disk r (k :: ks) = removeKeys (removeKeys disk r [k]).1 (removeKeys disk r [k]).2 ks := by
+  simp only [removeKeys, List.foldl_cons, List.foldl_nil, List.filter_filter]
+  congr 1
+  apply List.filter_congr
+  intro e _
+  simp [Bool.and_comm]
+
+/-- the `age` loop of the source, as a function of the fold state -/
+def ageStep (thr now : Int) (acc : List Entry × Reg × Bool) (key : Entry) : List Entry × Reg × Bool :=
+  let (disk, r, stopped) := acc
+  if stopped then (disk, r, stopped) else
+  let delta := (now - key.ctime)
+  (if (decide (delta > thr)) then
+    let (disk, r) := Cache.removeKeys disk r [key.key]
+    (disk, r, false)
+  else
+    (disk, r, true))
+
+theorem age_stopped (thr now : Int) (es : List Entry) (disk : List Entry) (r : Reg) :
+    es.foldl (ageStep thr now) (disk, r, true) = (disk, r, true) := by
+  induction es with
+  | nil => rfl
+  | cons e es ih => simp only [List.foldl_cons, ageStep, if_true]; exact ih
+
+theorem age_fold (thr now : Int) : ∀ (es : List Entry) (disk : List Entry) (r : Reg),
+    ((es.foldl (ageStep thr now) (disk, r, false)).1, (es.foldl (ageStep thr now) (disk, r, false)).2.1) =
+      removeKeys disk r ((es.takeWhile (tooOld now thr)).map (·.key)) := by
+  intro es
+  induction es with
+  | nil => intro disk r; simp [removeKeys_nil]
+  | cons e es ih =>
+    intro disk r
+    simp only [List.foldl_cons, ageStep, Bool.false_eq_true, if_false]
+    by_cases h : now - e.ctime > thr
+    · simp only [h, decide_true, if_true]
+      rw [ih]
+      have : tooOld now thr e = true := by simp [tooOld, h]
+      simp only [List.takeWhile_cons, this, if_true, List.map_cons]
+      exact (removeKeys_cons disk r e.key _).symm
+    · simp only [h, decide_false, Bool.false_eq_true, if_false]
+      rw [age_stopped]
+      have : tooOld now thr e = false := by simp [tooOld, h]
+      simp [List.takeWhile_cons, this, removeKeys_nil]
+
+/-- **`age` mode as written in the source** (oldest first, stop at the first entry that is young enough)
+removes exactly the model's set: the entries older than the threshold. -/
+theorem expire_age_eq (thr now : Int) (disk : List Entry) (r : Reg) :
+    Gen.CachePy.expire_age thr now disk r = expire .age thr now disk r := by
+  simp only [Gen.CachePy.expire_age, expire]
+  exact age_fold thr now _ disk _
+
+/-- the `size` loop of the source -/
+def sizeStep (thr : Int) (acc : List Entry × Reg × Bool) (key : Entry) : List Entry × Reg × Bool :=
+  let (disk, r, stopped) := acc
+  if stopped then (disk, r, stopped) else
+  let (disk, r) := Cache.removeKeys disk r [key.key]
+  (if (decide ((r.size : Int) ≤ thr)) then (disk, r, true) else (disk, r, false))
+
+theorem size_stopped (thr : Int) (es : List Entry) (disk : List Entry) (r : Reg) :
+    es.foldl (sizeStep thr) (disk, r, true) = (disk, r, true) := by
+  induction es with
+  | nil => rfl
+  | cons e es ih => simp only [List.foldl_cons, sizeStep, if_true]; exact ih
+
+theorem size_fold (thr : Int) (h0 : 0 ≤ thr) : ∀ (es : List Entry) (disk : List Entry) (r : Reg),
+    ((es.foldl (sizeStep thr) (disk, r, false)).1, (es.foldl (sizeStep thr) (disk, r, false)).2.1) =
+      sizeLoop thr.toNat es (disk, r) := by
+  intro es
+  induction es with
+  | nil => intro disk r; rfl
+  | cons e es ih =>
+    intro disk r
+    simp only [List.foldl_cons, sizeStep, Bool.false_eq_true, if_false, sizeLoop]
+    have hiff : ((((removeKeys disk r [e.key]).2.size : Nat) : Int) ≤ thr) ↔ (removeKeys disk r [e.key]).2.size ≤ thr.toNat := by
+      omega
+    by_cases h : (((removeKeys disk r [e.key]).2.size : Nat) : Int) ≤ thr
+    · simp only [h, decide_true, if_true, hiff.mp h]
+      rw [size_stopped]
+    · have h' : ¬ (removeKeys disk r [e.key]).2.size ≤ thr.toNat := fun hc => h (hiff.mpr hc)
+      simp only [h, decide_false, Bool.false_eq_true, if_false, h']
+      exact ih _ _
+
+/-- **`size` mode as written in the source** (remove oldest first until the tracked size is within the
+threshold) is the model's, for every non-negative threshold. -/
+theorem expire_size_eq (thr now : Int) (h0 : 0 ≤ thr) (disk : List Entry) (r : Reg) :
+    Gen.CachePy.expire_size thr now disk r = expire .size thr now disk r := by
+  have key := size_fold thr h0 (sortCache (scan disk r).entries) disk (scan disk r)
+  have hgen : Gen.CachePy.expire_size thr now disk r =
+      (if decide (((scan disk r).size : Int) > thr) = true then
+        ((List.foldl (sizeStep thr) (disk, scan disk r, false) (sortCache (scan disk r).entries)).1,
+         (List.foldl (sizeStep thr) (disk, scan disk r, false) (sortCache (scan disk r).entries)).2.1)
+       else (disk, scan disk r)) := rfl
+  rw [hgen, key]
+  simp only [expire]
+  by_cases h : ((scan disk r).size : Int) > thr <;> simp [h]
+
+/-- non-vacuity: three files of 10 bytes, threshold 15 bytes: the two oldest go -/
+example :
+    let es : List Entry := [⟨1, 1, 10, 5⟩, ⟨2, 2, 10, 3⟩, ⟨3, 3, 10, 9⟩]
+    (Gen.CachePy.expire_size 15 100 es ⟨es, 30⟩).1.map (·.key) = [3] := by decide
+
+end C17.Translated
+
